@@ -34,6 +34,7 @@ package ice
 //@   site call LocalAddr#6 ghost localOf := result.payload
 //@   site call getConn#1 assert local-ip-is-the-accepted-connections: localOf == localAddr && localAddr != nil
 //@   site call getConn#1 assert routed-by-ufrag-before-colon-family-and-local-ip: arg1 == parts0 && arg1 == ufrag && arg2 == isIPv6 && arg3 == localAddr.IP
+//@   site call getConn#1 assert a-closed-mux-attaches-no-connection: !m.closed
 //@   site call createConn#1 assert unknown-ufrag-gets-a-provisional-conn: arg1 == ufrag && arg2 == isIPv6 && arg3 == localAddr.IP && arg4 == true
 //@   site call AddConn#1 assert attaches-this-conn-with-its-first-frame: arg0 == packetConn && arg1 == conn && arg2.base == buf.base && len(arg2) == n && closedCount == 0
 //@   site call AddConn#1 ghost attached := result == nil
@@ -161,8 +162,15 @@ package ice
 //@   ensures every-underlying-mux-closed-even-after-an-error: closedN == old(len(m.muxes))
 
 //@ func (*MultiTCPMuxDefault).GetAllConns
-//@   props C15
+//@   props C15 C13
 //@   opt nosafety
+//@   ghostvar taken int = 0
+//@   ghostvar givenBack int = 0
+//@   site call GetConnByUfrag#1 ghost taken := taken + ite(result1 == nil && result0 != nil, 1, 0)
+//@   site call Close#1 ghost givenBack := givenBack + 1
+//@   loop 1 invariant C13 every-handle-taken-so-far-is-in-the-result: len(conns) == taken && givenBack == 0 && taken >= 0
+//@   loop 2 invariant C13 gives-back-one-handle-per-round: givenBack == rangeindex + 1 && len(conns) == taken && rangeindex + 1 <= len(conns)
+//@   ensures C13 all-or-none-every-handle-taken-is-returned-or-given-back: (result1 == nil ==> len(result0) == taken && givenBack == 0) && (result1 != nil ==> givenBack == taken)
 //@   site call GetConnByUfrag#1 assert asks-each-mux-for-exactly-this-key: recv == mux && arg0 == ufrag && arg1 == isIPv6 && arg2 == local
 //@   ensures no-mux-is-an-error: old(len(m.muxes)) == 0 ==> result0 == nil && result1 != nil
 
